@@ -39,12 +39,14 @@ func (P) Rule() string {
 		"requests/responses run through the handler's active modifier; a body is a random tree (depth <= 5, width <= 4) over fifo.Group (with and " +
 		"without aggregateErrors), priority.Group (priorities with many ties), url/header/querystring/method/cookie/port filters (random parameters " +
 		"over small universes incl. host wildcards, escaped queries, pseudo-headers; with and without else) and probe leaves registered through " +
-		"parse.Register (request-only/response-only/both/neither, optionally failing), with scope absent/null/[]/[request]/[response]/both/duplicated " +
+		"parse.Register (request-only/response-only/both/neither, optionally failing; in a share of the trees several leaves share one error TEXT " +
+		"or even one label, the error VALUE staying the leaf's), with scope absent/null/[]/[request]/[response]/both/duplicated " +
 		"at every level; about a third of the bodies carry one or two defects (unknown name, unsupported or unknown scope, wrong JSON shape, non-JSON " +
 		"text); exchanges are concrete (method, URL, raw query, Host/Content-Length/Transfer-Encoding, header lines, cookies), half of them bent " +
 		"towards a condition of the tree; plus wide cases (one group of 13-40 children, few distinct priorities in mixed patterns), JSON cases (the " +
 		"plain JSON value of a tree with 1-3 blind mutations: duplicate/folded/unknown members, nulls, number forms, wrong kinds, registry-level " +
-		"duplicates), matcher cases (single conditions, MatchHost and ParseQuery on arbitrary strings), the exhaustive two-level scope matrix and a " +
+		"duplicates), aggregation cases (aggregating fifo groups nested at depth 2-5 directly and through filters/priority groups, leaves failing " +
+		"with p >= 1/2 and equal error texts/labels), matcher cases (single conditions, MatchHost and ParseQuery on arbitrary strings), the exhaustive two-level scope matrix and a " +
 		"concurrent tier (bodies POSTed while 2-6 goroutines run traffic); distinct by hash of the op list; non-trivial when the case has an " +
 		"accepted tree of depth >= 3 and a message whose trace is not empty"
 }
@@ -76,26 +78,35 @@ func (P) Nontrivial(ops []string, impl []string) bool {
 
 const traceHeader = "X-Trace"
 
-type probeErr struct{ label int }
+// probeErr: the identity of a leaf's error is the VALUE (its label field, read by the harness);
+// its TEXT is shared by every leaf of the same class (eclass > 0), so nothing in the code under test
+// may tell errors apart — or merge them — by their message.
+type probeErr struct{ label, eclass int }
 
-func (e *probeErr) Error() string { return "probe " + strconv.Itoa(e.label) + " failed" }
+func (e *probeErr) Error() string {
+	if e.eclass > 0 {
+		return "probe class " + strconv.Itoa(e.eclass) + " failed"
+	}
+	return "probe " + strconv.Itoa(e.label) + " failed"
+}
 
 type probe struct {
 	label            int
 	failReq, failRes bool
+	eclass           int
 }
 
 func (p *probe) doReq(req *http.Request) error {
 	req.Header.Add(traceHeader, strconv.Itoa(p.label))
 	if p.failReq {
-		return &probeErr{p.label}
+		return &probeErr{p.label, p.eclass}
 	}
 	return nil
 }
 func (p *probe) doRes(res *http.Response) error {
 	res.Header.Add(traceHeader, strconv.Itoa(p.label))
 	if p.failRes {
-		return &probeErr{p.label}
+		return &probeErr{p.label, p.eclass}
 	}
 	return nil
 }
@@ -116,6 +127,7 @@ type probeJSON struct {
 	FailReq bool                 `json:"failReq"`
 	FailRes bool                 `json:"failRes"`
 	Scope   []parse.ModifierType `json:"scope"`
+	EText   int                  `json:"etext"`
 }
 
 func probeFromJSON(b []byte) (*parse.Result, error) {
@@ -126,7 +138,7 @@ func probeFromJSON(b []byte) (*parse.Result, error) {
 	if msg.Label < 0 {
 		return nil, fmt.Errorf("verif.Probe: negative label")
 	}
-	p := probe{msg.Label, msg.FailReq, msg.FailRes}
+	p := probe{msg.Label, msg.FailReq, msg.FailRes, msg.EText}
 	var mod interface{}
 	switch msg.Caps {
 	case "q":
